@@ -82,9 +82,9 @@ CFG = {
     text="Theorems (every tree, every visitor, every stop index): the node iterator yields exactly the visit_node sequence; a visitor sees exactly the full callback sequence cut after the first false; the nesting protocol is the (6-line) definition of the trace, tied to the code by comparing every callback sequence incl. early stops, and checked independently by a grammar parser on the implementation side.",
     assumptions=[A_MODEL]),
  "C18": dict(streams=[dict(name="tcfg", profiles=["debug","release"], features=["","mst_default","mst_all"])], level="proof",
-    theorems=[P+"C18_base_content", P+"C18_generic", P+"C18_constructors"],
-    text="PARTIAL. Theorems: every property theorem is universally quantified over key type, digest types, level function (hasher x base) and page hasher; the base changes only the shape, never the content; equal configurations agree. Not modelled: the three constructors, Builder, SipHasher::new(seed), feature-gated code - decided by the tcfg correspondence stream (bases, widths, key kinds, default/seeded/custom hashers, three constructors) across 3 feature sets x 2 profiles.",
-    assumptions=[A_TOTAL, A_LVL, A_MODEL, "constructors / Builder / cargo features are glue decided by correspondence only"]),
+    theorems=[P+"C18_base_content", P+"C18_generic", P+"C18_constructors", P+"C18_api_constructors", P+"C18_api_interchangeable", P+"C18_api_three_constructors", P+"C18_api_hash_framing"],
+    text="PARTIAL. Theorems: every property theorem is universally quantified over key type, digest types, level function (hasher x base) and page hasher; the base changes only the shape, never the content; equal configurations agree. The construction layer is modelled (Model/Api.lean: Builder and its setters, build, default(), new_with_hasher, Clone/clone_from, the stored hasher and base, SipHasher::default()/new(seed) over the std Hash byte streams of the key/value types, upsert(key,value) computing digests and level) and proved to refine tree-level histories: trees storing the same hasher and base, however constructed, are interchangeable under any two API histories with the same last value per key (C18_api_interchangeable). Decided by correspondence only: cargo feature sets and build profiles (tcfg stream across 3 feature sets x 2 profiles: bases, widths, key kinds, default/seeded/custom hashers, all constructors, both builder orders, clone and clone_from between differently configured trees, the digests of the stored hasher compared with the model's).",
+    assumptions=[A_TOTAL, A_LVL, A_MODEL, "what std::hash::Hash writes for Vec<u8>/[u8;N]/String (length prefix / 0xff terminator) is recorded in Model/Api.lean and tied by the hdig lines", "cargo features / build profiles are decided by correspondence only"]),
 
 }
 
